@@ -347,6 +347,15 @@ pub fn gen(prop: &str, rng: &mut Rng, quick: bool, st: &mut Stats) -> Option<Vec
                     st.bump(&format!("start_position_{}", if p == 0 { "zero" } else { "nonzero" }));
                 }
             }
+            // root directory close to its 16257-byte limit, and starting positions beyond 16 KiB: limits are relative
+            for (k, (n, p)) in [(4063usize, 64u64), (4064, 1), (4063, 20_000), (4062, 127), (30, 16_384), (30, 70_000), (0, 16_300)].iter().enumerate() {
+                let mut ops = vec!["c:none".to_string()];
+                for t in 0..*n {
+                    ops.push(format!("a:{:x}:{:02x}{:02x}", 2 * t, t % 251, t / 251));
+                }
+                c.push(format!("chk_startpos {} {p:x} - {}", if k % 2 == 0 { "sync" } else { "async" }, ops.join(";")));
+                st.bump("start_position_near_limits");
+            }
         }
         "C17" => {
             let mut k = 0;
@@ -416,6 +425,9 @@ pub fn gen(prop: &str, rng: &mut Rng, quick: bool, st: &mut Stats) -> Option<Vec
             for (k, b) in archives.iter().enumerate() {
                 for mode in ["sync", "async"] {
                     c.push(format!("chk_sched open {mode} {:x} {} u_u", rng.next(), hex_bytes(b)));
+                    if k % 2 == 0 && b.len() < 400_000 {
+                        c.push(format!("chk_sched rewrite {mode} {:x} {}", rng.next(), hex_bytes(b)));
+                    }
                     if k % 3 == 0 {
                         c.push(format!("chk_sched open {mode} {:x} {} i3_u", rng.next(), hex_bytes(b)));
                     }
@@ -486,6 +498,10 @@ pub fn gen(prop: &str, rng: &mut Rng, quick: bool, st: &mut Stats) -> Option<Vec
                 let mode = if k % 2 == 0 { "sync" } else { "async" };
                 c.push(format!("chk_fault open {mode} {} u_u", hex_bytes(b)));
                 c.push(format!("chk_fault_lookup {mode} {}", hex_bytes(b)));
+                if b.len() < 200_000 {
+                    // re-writing an opened archive while its input stream fails
+                    c.push(format!("chk_fault rewrite {mode} {}", hex_bytes(b)));
+                }
                 if let Ok(h) = spec::decode_header(b) {
                     c.push(format!("chk_fault rdirs {mode} {} {} {:x} {:x} {:x} u_u", hex_bytes(b), ["unknown", "none", "gzip", "brotli", "zstd"][h.icomp as usize % 5], h.root_off, h.root_len, h.leaf_off));
                     c.push(format!("chk_fault hdr_r {mode} {}", hex_bytes(&b[..127.min(b.len())])));
